@@ -446,6 +446,10 @@ package composite
 //@   requires len(parentRevisions) >= 1
 //@   // the entry appended to a revision's new children list carries exactly the names that survived the filter
 //@   at append#2(s, els) [C09,C07]: len(els) == 1 && sameslice(els[0].Names, cur(names))
+//@   // a name is kept for a revision only if that revision is the one the claim map records for it (a child already claimed
+//@   // by an earlier revision in the list - the latest comes first - is dropped here: at most one revision per child)
+//@   bind loop 1: pri, prv
+//@   at append#1(s, els) [C09]: len(els) == 1 && has(claimed, key) && has(claimed[key], els[0]) && claimed[key][els[0]] == prv
 //@   // a claim survives only if the *latest* revision still desires the child (whichever revision holds the claim)
 //@   at RelativeObjectMap.FindGroupKindName(m, gk, n) [C08,C09]: m == parentRevisions[0].desiredChildMap
 //@   ensures [C09] claimed != nil
